@@ -61,8 +61,8 @@ theorem withNewCas_coll?_other (s : State) (c c' : String) (fn : TxnFn) (h : c' 
     split
     · rfl
     · split
-      · rw [postEvent_coll?, State.coll?_setColl_other _ _ _ _ h]; rfl
-      · rw [State.coll?_setColl_other _ _ _ _ h]; rfl
+      · rw [postEvent_coll?]; unfold commit; rw [State.coll?_setColl_other _ _ _ _ h]; rfl
+      · unfold commit; rw [State.coll?_setColl_other _ _ _ _ h]; rfl
 
 theorem withNewCas_row?_other_coll (s : State) (c c' k' : String) (fn : TxnFn) (h : c' ≠ c) :
     (withNewCas s c fn).1.row? c' k' = s.row? c' k' := by
@@ -104,20 +104,18 @@ theorem withNewCas_liftRow_outcome (s : State) (c k : String) (f : RowFn) :
       obtain ⟨docs', nid, ev, out⟩ := q
       simp only
       -- rows of the state after the write, whatever is posted
-      have hcoll : ∀ (s2 : State), (∀ c', s2.coll? c' = (({ s with hlc := hlcNow s.hlc s.phys, lastCas := hlcNow s.hlc s.phys, nextRowId := nid } : State).setColl c
-          { x with docs := docs', lastCas := hlcNow s.hlc s.phys }).coll? c') →
+      have hcoll : ∀ (s2 : State), (∀ c', s2.coll? c' = (commit s c x (hlcNow s.hlc s.phys) nid docs').coll? c') →
           (s2.row? c k = docs'.get? k) ∧ (∀ c' k', (c' ≠ c ∨ k' ≠ k) → s2.row? c' k' = (if c' = c then docs'.get? k' else s.row? c' k')) := by
         intro s2 h2
         have hsame : s2.coll? c = some { x with docs := docs', lastCas := hlcNow s.hlc s.phys } := by
-          rw [h2, State.coll?_setColl_same _ _ _ x (by simpa [State.coll?] using hx)]
+          rw [h2]; unfold commit; rw [State.coll?_setColl_same _ _ _ x (by simpa [State.coll?] using hx)]
         refine ⟨by rw [State.row?_def, hsame]; rfl, ?_⟩
         intro c' k' _
         by_cases hc : c' = c
         · subst hc; simp only [if_true]; rw [State.row?_def, hsame]; rfl
         · simp only [hc, if_false]
-          rw [State.row?_def, State.row?_def, h2, State.coll?_setColl_other _ _ _ _ hc]; rfl
-      have fin : ∀ (s2 : State), (∀ c', s2.coll? c' = (({ s with hlc := hlcNow s.hlc s.phys, lastCas := hlcNow s.hlc s.phys, nextRowId := nid } : State).setColl c
-          { x with docs := docs', lastCas := hlcNow s.hlc s.phys }).coll? c') → RowOutcome f s c k s2 out := by
+          rw [State.row?_def, State.row?_def, h2]; unfold commit; rw [State.coll?_setColl_other _ _ _ _ hc]; rfl
+      have fin : ∀ (s2 : State), (∀ c', s2.coll? c' = (commit s c x (hlcNow s.hlc s.phys) nid docs').coll? c') → RowOutcome f s c k s2 out := by
         intro s2 h2
         obtain ⟨h2a, h2b⟩ := hcoll s2 h2
         rcases liftRow_get?_same k f _ _ _ _ _ _ _ _ hfn with ⟨ev', hf, hd⟩ | ⟨r', ev', hf, hd⟩
